@@ -12,8 +12,19 @@ RULE = ('generated projects (static/shared/dual libraries, executables using the
         'default, test) built by the real GNU Make with logging stub tools; per project: full build, no-op second build, then for every '
         'source / intermediate / generated input one touch + rebuild, executed step set compared with the downstream set of the '
         "generator's own DAG; DefaultOutputs operation sequences vs the model. A case is non-trivial when the touched file has at "
-        'least one downstream step; distinct by (project, touched file)')
+        'least one downstream step; distinct by (project, touched file). W:emit: random scripts driven through the real builtins in an '
+        'in-process build context (compile with header file objects / pch given as object or by name / extra_deps / a second output, '
+        'static and shared libraries with libs=, executables sharing object files, nested output directories, command and build_step with '
+        'file nodes in the command line, 1-3 outputs, always_outdated, copy_file, alias, test, test_deps, default, install): per edge the '
+        'Rule / Build tuples of the real Make and Ninja handlers vs Graph/Emit.v, per script the hooks, and - independent of the model - the '
+        'prerequisites of every output vs what the SCRIPT declares (written down by the generator from the arguments it passes). '
+        'R:stampsem: stamp-shaped rule graphs (2-3 outputs, 1-3 consumers, chains, goal orders, touch / delete of inputs, outputs, stamp) '
+        'in GNU Make vs StampSem.dmake. Dependency-shape projects (projgen.generate_graph): every output named, declared DAG next to '
+        'the script; emitted edges of both backends vs the DAG, then touch of every source and of half the intermediates with real make')
 TRUSTED = ('mtime build semantics: the real GNU Make 4.3 (system level); Make/MakeSem.v model for the generic theorems',
+           'Graph/StampSem.v dmake (depth-first walk with cached mtimes) validated against GNU Make 4.3 on this run (R:stampsem)',
+           'emitter model: an Edge is abstracted to its attribute dump (abstract_step); the spelling of .stamp / .dir names is '
+           'taken from the real Path.addext / parent / append (C12); one producer per file is C05',
            'Ninja graph read through the reference evaluator (no ninja binary)')
 
 
@@ -275,6 +286,7 @@ def real_script(rng, rep, ctx, build):
         objs.append(o)
         produced.append(o)
     libs = []
+    fwd = {}
     for i in range(rng.randint(0, 2)):
         fn = rng.choice(['static_library', 'shared_library'])
         files = some(objs, 1, 2)
@@ -282,8 +294,12 @@ def real_script(rng, rep, ctx, build):
         nm_ = rng.choice(['', 'lib/', 'lib/nested/']) + 'l%d' % i
         l = ctx[fn](nm_, files=files, libs=ll, extra_deps=extra)
         # archiving does not read the libraries a static library is declared to use: either reading is accepted
+        # libraries a static library is declared to use are forwarded to whatever links against it (C14)
+        via = set().union(*[fwd.get(x, set()) for x in ll]) if ll else set()
+        if fn == 'static_library':
+            fwd[l] = set(ll) | via
         decl.append((l, set(files) | set(extra) | (set(ll) if fn == 'shared_library' else set()),
-                     call(fn, nm_, files=files, libs=ll, extra_deps=extra)) + ((set(ll),) if fn == 'static_library' else ()))
+                     call(fn, nm_, files=files, libs=ll, extra_deps=extra), (set(ll) | via) if fn == 'static_library' else via))
         rep.count('w-emit:%s libs=%d' % (fn, len(ll)))
         libs.append(l)
         produced.append(l)
@@ -309,7 +325,7 @@ def real_script(rng, rep, ctx, build):
             decl.append((io, {implicit_src} | set(header_objs(kw['includes'])) | ({p} if p is not None else set()),
                          text + '  [its implicit object]'))
             produced.append(io)
-        decl.append((x, set(allobjs) | set(ll) | set(extra), text))
+        decl.append((x, set(allobjs) | set(ll) | set(extra), text, set().union(*[fwd.get(y, set()) for y in ll]) if ll else set()))
         exes.append(x)
         produced.append(x)
     shared = [o for o in objs if sum(1 for x in exes if o in x.creator.files) > 1]
@@ -699,6 +715,8 @@ def expected_graph(p):
             if st['lib']:
                 for user in libs_used_by.get(st['owner'], ()):
                     d.add('link:' + user)
+                if not libs_used_by.get(st['owner']):
+                    d = set()        # a library no executable uses is not reachable from the goals make is given
             down[st['source']] = d
     down['gen.in'] = {'build_step'}
     return down
